@@ -59,6 +59,12 @@ func TestC11(t *testing.T) {
 	r.Require("hist_circuit_ended_by_duration", 10)
 	r.Require("hist_circuit_ended_by_disconnect", 10)
 	r.Require("hist_connect_in_expiry_window", 3)
+
+	dataAndDuration(t, r)
+	r.Require("data_delivered_up_to_limit", 100)
+	r.Require("data_payload_above_limit", 100)
+	r.Require("data_payload_equals_limit", 50)
+	r.Require("dur_traffic_until_deadline", 10)
 }
 
 // ---------------------------------------------------------------------------------------------
